@@ -309,6 +309,19 @@ def all_structures(n, atoms=('p', 'q')):
             yield KS(succ, labs)
 
 
+def big_structure(rng, nmin=7, nmax=14, atoms=('p', 'q')):
+    """larger structures: chains into cycles, several SCCs, a few high-degree states"""
+    n = rng.randint(nmin, nmax)
+    succ = []
+    for s in range(n):
+        k = rng.choice([1, 1, 2, 2, 3, 5])
+        near = [max(0, min(n - 1, s + rng.choice([-2, -1, 0, 1, 1, 2]))) for _ in range(k)]
+        far = [rng.randrange(n)] if rng.random() < 0.3 else []
+        succ.append(sorted(set(near + far)))
+    labs = [[a for a in atoms if rng.random() < 0.5] for _ in range(n)]
+    return KS(succ, labs)
+
+
 def random_structure(rng, nmax=6, atoms=('p', 'q')):
     n = rng.choice([1] + list(range(2, nmax + 1)) * 3 + [nmax] * 2)
     succ = []
